@@ -77,6 +77,7 @@ ebbf229 C08 C08.errexit
 50c76da C14 C14.chunkeof
 e4db022 C20 C20.pool
 0b60194 C15 C15.bucket
+2bd1055 C08 C08.cursorreset
 LIST
 git -C /repo worktree remove --force $WT
 rm -rf /tmp/fixcheck-ev
